@@ -480,10 +480,31 @@ fn small_bases(tier: &str) -> Vec<(char, Vec<u8>)> {
 fn corrupt_cases(tier: &str, path: &str) -> usize {
     let mut w = BufWriter::new(std::fs::File::create(path).expect("create cases"));
     let mut id = 0usize;
-    for (bi, (_, b)) in small_bases(tier).iter().enumerate() {
+    for (bi, (kind, b)) in small_bases(tier).iter().enumerate() {
         writeln!(w, "B b{} {}", bi, hex(b)).unwrap();
         writeln!(w, "L {} {}", id, hex(b)).unwrap();
         id += 1;
+        if *kind == 'b' {
+            // the two length bytes of every 125-byte record of a binary file take ALL 256 values (a bound
+            // check that is off by one shows at exactly one of them: seeded change C12-B)
+            let mut rec = 8usize;
+            while rec + 125 <= b.len() {
+                let n = b[rec + 16] as usize;
+                let mut offs = vec![rec + 16];
+                if 17 + 2 * n < 125 {
+                    offs.push(rec + 17 + 2 * n);
+                }
+                for off in offs {
+                    for v in 0..=255u8 {
+                        if v != b[off] {
+                            writeln!(w, "C {} b{} {} {}", id, bi, off, v).unwrap();
+                            id += 1;
+                        }
+                    }
+                }
+                rec += 125;
+            }
+        }
         for off in 0..b.len() {
             let o = b[off];
             let mut vals = vec![0x00u8, 0x01, 0x7f, 0x80, 0xff, o.wrapping_add(1), o.wrapping_sub(1)];
